@@ -154,6 +154,15 @@ Ids(frames) == [i \in DOMAIN frames |-> frames[i].id]
 IsEndFrame(f) == f.id = -4
 DataFrames(frames) == SelectSeq(frames, LAMBDA f : ~IsEndFrame(f))
 Ok(obs) == obs.cl.end.code = 0
+\* the response stream visibly breaks off inside a frame (a client reports that as an error)
+Truncated(obs) == obs.cl.rest > 0 \/ \E i \in DOMAIN obs.cl.frames : obs.cl.frames[i].id = -3
+\* what a faithful client of the protocol concludes: OK only if the end says OK and every
+\* message it was handed is complete, decompresses and decodes
+ClientSeesOk(obs) ==
+    /\ Ok(obs) /\ ~Truncated(obs)
+    /\ \A i \in DOMAIN obs.cl.frames :
+         /\ obs.cl.frames[i].id \notin {-1, -2}
+         /\ (obs.cl.frames[i].id # -4 => obs.cl.frames[i].flags \in {-1, 0, 1})
 Dispatched(obs) == obs.ret.n >= 1
 TheDisp(obs) == obs.disp[1]
 
@@ -235,26 +244,46 @@ C01(scn, obs) ==
       (IF disp /\ ~scn.hd.noread /\ TheDisp(obs).form # "connect_get" /\ ~NoPhantomReq(scn, TheDisp(obs))
           THEN {"C01.NoPhantomRequestMessage"} ELSE {})
       \cup (IF disp /\ ~scn.hd.noread /\ ~ReqFramesSound(scn, TheDisp(obs)) THEN {"C01.RequestSequence"} ELSE {})
-      \cup (IF ~RespFramesSound(scn, c) THEN {"C01.ResponseSequence"} ELSE {})
-      \cup (IF Ok(obs) /\ disp /\ ~scn.hd.noread /\ ~scn.hd.ignore /\ Ids(TheDisp(obs).frames) # ReqIds(scn)
+      \* (a backend that breaks its own protocol on a pass-through route talks to the client directly)
+      \cup (IF ~RespFramesSound(scn, c) /\ ~(PassThru(scn) /\ HandlerFaulty(scn)) THEN {"C01.ResponseSequence"} ELSE {})
+      \cup (IF ClientSeesOk(obs) /\ disp /\ ~scn.hd.noread /\ ~scn.hd.ignore /\ Ids(TheDisp(obs).frames) # ReqIds(scn)
           THEN {"C01.OkButRequestDiffers"} ELSE {})
-      \cup (IF Ok(obs) /\ Ids(DataFrames(c.frames)) # RespIds(scn) /\ ~(scn.hd.exit = "panic")
+      \cup (IF ClientSeesOk(obs) /\ Ids(DataFrames(c.frames)) # RespIds(scn) /\ ~(scn.hd.exit = "panic")
+               /\ ~(PassThru(scn) /\ HandlerFaulty(scn))
           THEN {"C01.OkButResponseDiffers"} ELSE {})
       \cup (IF Faithful(scn) /\ scn.hd.end.code = 0 /\ ~Ok(obs) THEN {"C01.FaithfulCallFails"} ELSE {})
+
+\* does the negotiated backend protocol frame its messages?
+SrvEnveloped(scn) ==
+    LET sp == SrvProto(scn.cfg, ProtoOf(scn.cl.form)) IN
+    sp \in {"grpc", "grpcweb"} \/ (sp = "connect" /\ MethodInfo(scn.cl.method).stream # "unary")
+
+LengthFramed(scn) ==
+    LET sp == SrvProto(scn.cfg, ProtoOf(scn.cl.form)) IN
+    /\ ~SrvEnveloped(scn) /\ Enveloped(scn.cl.form)
+    /\ SrvCodec(scn.cfg, sp, ClientCodec(scn.cl)) = ClientCodec(scn.cl)
 
 \* the stream faults C09 enumerates
 C09Faulty(scn) ==
     \/ scn.cl.cut # "" \/ FrameFaulty(scn.cl.frames) \/ scn.cl.clen \in {"over", "under"}
     \/ scn.hd.fault \in {"badendjson", "badtrailerframe"}
-    \/ \E k \in 0..9 : scn.hd.fault \in {"cutenv:" \o ToString(k), "cutpay:" \o ToString(k)}
+    \/ \E k \in 0..9 : scn.hd.fault \in {"cutenv:" \o ToString(k), "cutpay:" \o ToString(k),
+                                        "cutenvok:" \o ToString(k), "cutpayok:" \o ToString(k)}
     \/ \E i \in 1..SentCount(scn) : scn.hd.frames[i].fault # ""
     \/ scn.hd.end.how = "missing"
-    \/ scn.hd.clen \in {"short", "long"}
+    \* a declared Content-Length matters where the transcoder frames the message with it:
+    \* un-enveloped backend, enveloped client, payload passed on without re-encoding
+    \/ (scn.hd.clen \in {"short", "long"} /\ LengthFramed(scn))
+
+HandlerSideFault(scn) == C09Faulty(scn) /\ ~(scn.cl.cut # "" \/ FrameFaulty(scn.cl.frames) \/ scn.cl.clen \in {"over", "under"})
 
 C09(scn, obs) ==
-    IF Rejected(scn) \/ ~C09Faulty(scn) \/ scn.hd.ignore THEN {} ELSE
-      (IF Ok(obs) THEN {"C09.FaultSurfacedAsSuccess"} ELSE {})
-      \cup (IF obs.cl.ends >= 1 \/ obs.cl.status >= 400 THEN {} ELSE {"C09.NoTerminalDisposition"})
+    \* (a backend that breaks its own protocol on a pass-through route talks to the client directly)
+    IF Rejected(scn) \/ ~C09Faulty(scn) \/ scn.hd.ignore \/ (PassThru(scn) /\ HandlerSideFault(scn)) THEN {} ELSE
+      (IF ClientSeesOk(obs) THEN {"C09.FaultSurfacedAsSuccess"} ELSE {})
+      \* (when the backend stops inside a frame that was already being streamed to the client the
+      \*  response can only break off; otherwise there must be a terminal disposition)
+      \cup (IF obs.cl.ends >= 1 \/ obs.cl.status >= 400 \/ Truncated(obs) THEN {} ELSE {"C09.NoTerminalDisposition"})
       \cup (IF obs.ret.stuck THEN {"C09.Hang"} ELSE {})
 
 (***************************************************************************)
@@ -275,11 +304,14 @@ C03(scn, obs) ==
     LET c == obs.cl
         f == scn.cl.form
         data == DataFrames(c.frames) IN
-      (IF c.extraheads = 0 THEN {} ELSE {"C03.OneHead"})
-      \cup (IF c.problems = <<>> THEN {} ELSE {"C03.Framable"})
-      \cup (IF c.clen >= 0 => c.clen = c.bodylen THEN {} ELSE {"C03.ContentLength"})
+      (IF PassThru(scn) THEN {} ELSE
+         (IF c.extraheads = 0 THEN {} ELSE {"C03.OneHead"})
+         \cup (IF c.problems = <<>> THEN {} ELSE {"C03.Framable"})
+         \cup (IF c.clen >= 0 => c.clen = c.bodylen THEN {} ELSE {"C03.ContentLength"}))
       \cup
-      (IF Rejected(scn) \/ PassThru(scn) THEN {} ELSE
+      \* (when the backend breaks off or lies inside a frame that is already being streamed to the
+      \*  client, nothing well-formed can follow; C09 then demands that it is not a success)
+      (IF Rejected(scn) \/ PassThru(scn) \/ (HandlerMidFrame(scn) /\ Enveloped(f)) THEN {} ELSE
          \* (a gRPC trailers-only response whose announced trailer keys make net/http repeat the
          \*  identical status after the empty body is one disposition, stated twice)
          (IF c.ends = 1 \/ (c.ends = 2 /\ c.enddup = "same") THEN {} ELSE {"C03.ExactlyOneEnd"})
@@ -288,7 +320,8 @@ C03(scn, obs) ==
          \cup (IF Enveloped(f) => c.status = 200 THEN {} ELSE {"C03.Status200"})
          \cup (IF EndInHeaders(f) /\ c.end.code \in 0..16 => c.status = HttpOfCode(c.end.code) THEN {} ELSE {"C03.StatusFromCode"})
          \cup (IF c.end.code >= 0 /\ c.end.extra = "" THEN {} ELSE {"C03.EndWellFormed"})
-         \cup (IF \A i \in DOMAIN data : FormAgrees(data[i], c.enc) THEN {} ELSE {"C03.CompressionAgrees"})
+         \* (a payload the backend itself corrupted is passed on as it is where nothing decodes it)
+         \cup (IF FrameFaulty(scn.hd.frames) \/ \A i \in DOMAIN data : FormAgrees(data[i], c.enc) THEN {} ELSE {"C03.CompressionAgrees"})
          \cup (IF HandlerMidFrame(scn) \/ (c.rest = 0 /\ \A i \in DOMAIN c.frames : WholeFrame(c.frames[i]))
                THEN {} ELSE {"C03.EnvelopesWellFormed"})
          \cup (IF Enveloped(f) => \A i \in DOMAIN data : data[i].flags \in {0, 1} THEN {} ELSE {"C03.EnvelopeFlags"})
@@ -329,7 +362,8 @@ C05(scn, obs) ==
       (IF d.lost = <<>> THEN {} ELSE {"C05.RequestHeaders"})
       \cup (IF d.herr # 0 \/ scn.hd.end.how = "barehttp" THEN {} ELSE
              (IF c.lost = <<>> THEN {} ELSE {"C05.ResponseHeaders"})
-             \cup (IF c.end.lost = <<>> THEN {} ELSE {"C05.Trailers"})
+             \* (the property defines a trailer position for the four RPC client forms, none for REST)
+             \cup (IF c.end.lost = <<>> \/ scn.cl.form = "rest" THEN {} ELSE {"C05.Trailers"})
              \cup (IF c.end.leak = <<>> THEN {} ELSE {"C05.StatusKeyLeak"}))
 
 (***************************************************************************)
@@ -354,11 +388,13 @@ C18(scn, obs) ==
       \cup (IF obs.ret.ctxdone THEN {} ELSE {"C18.ContextReleased"})
       \cup (IF obs.ret.late = 0 THEN {} ELSE {"C18.QuietAfterReturn"})
 
+\* (a backend that misbehaves on a pass-through route writes to the client's writer itself)
 C11(scn, obs) ==
       (IF obs.ret.panic /\ scn.hd.exit # "panic" THEN {"C11.NoPanic"} ELSE {})
       \cup (IF obs.ret.stuck THEN {"C11.Returns"} ELSE {})
-      \cup (IF obs.cl.extraheads = 0 THEN {} ELSE {"C11.OneHead"})
-      \cup (IF obs.cl.problems = <<>> THEN {} ELSE {"C11.Framable"})
+      \cup (IF PassThru(scn) THEN {} ELSE
+             (IF obs.cl.extraheads = 0 THEN {} ELSE {"C11.OneHead"})
+             \cup (IF obs.cl.problems = <<>> THEN {} ELSE {"C11.Framable"}))
 
 Judge(scn, obs) ==
     C01(scn, obs) \cup C02(scn, obs) \cup C03(scn, obs) \cup C04(scn, obs) \cup C05(scn, obs)
